@@ -116,6 +116,8 @@ def show_comp_py(d):
     for k, v in d.items():
         if isinstance(v, bool) or not isinstance(v, (int, float)):
             return 'ERR:badvalue'
+        if isinstance(v, float) and (math.isnan(v) or math.isinf(v)):
+            return 'ERR:SPECIAL'
         parts.append((k, 'f' if isinstance(v, float) else 'i', float(v)))
     return parts
 
@@ -615,6 +617,8 @@ def run(chk):
             return a[1] is b[1]
         if isinstance(a[1], float) and math.isnan(a[1]):
             return isinstance(b[1], float) and math.isnan(b[1])
+        if a[1] == b[1]:
+            return True
         return abs(a[1] - b[1]) <= tol * max(1.0, abs(a[1]) * 1e-3)
 
     def o_generic(c):
